@@ -135,7 +135,8 @@ def gen_history(g, rng):
                 items.append(("msg", {"type": 4, "ser": ser, "seq": rng.randint(0, 65535), "oneway": ow,
                                       "body": ("call", ("method", spec))}))
             if rng.random() < 0.75:
-                items.append(rng.choice([("cut", 0.0), ("cut", rng.random()), ("cut", 0.999), ("timeout",),
+                items.append(rng.choice([("cut", 0.0), ("cut", rng.random()), ("cut", 0.999), ("timeout",), ("timeout",),
+                                         ("cut", 0.0, "reset"), ("cut", rng.random(), "reset"),
                                          ("garbage", rng.randrange(len(srvkit.GARBAGE))),
                                          ("msg", {"type": rng.choice([1, 2, 3, 5, 0, 77]), "ser": 2, "seq": 1, "oneway": False,
                                                   "body": ("undecodable",)})]))
@@ -251,11 +252,18 @@ def _run(ctx, name, n, do_model, sweep=True):
         for st in ("thread", "multiplex"):
             hook_raises = [c for c in range(nconn) if (len(evs) + c) % 3 == 0]     # some connections' disconnect hook raises
             linger = 0 if len(evs) % 2 == 0 else None          # item streams are dropped at once / linger after a disconnect
-            case = {"servertype": st, "nconn": nconn, "evs": evs, "hook_raises": hook_raises, "linger": linger}
+            # a server-side timeout exists only with COMMTIMEOUT set: then a silent peer is timed out by the timeout the server
+            # put on the accepted socket (and by nothing else)
+            ct = 0.5 if (any(it[0] == "timeout" for _, it in evs) or len(evs) % 3 == 1) else 0.0
+            case = {"servertype": st, "nconn": nconn, "evs": evs, "hook_raises": hook_raises, "linger": linger, "commtimeout": ct}
             try:
-                obs, res, pool = c08.run_real(st, nconn, evs, hook_raises, linger=linger, collect=True)
+                obs, res, pool = c08.run_real(st, nconn, evs, hook_raises, linger=linger, collect=True, commtimeout=ct)
             except srvkit.Stuck as x:
                 ctx.fail("stuck:" + st, "the %s server got stuck: %r" % (st, x), case)
+                continue
+            except srvkit.Blocked as x:
+                ctx.fail("no-server-timeout:" + st, "COMMTIMEOUT is %.1f but a silent peer is never timed out, so its connection is never "
+                         "cleaned up and (multiplex) nothing else is served: %s" % (ct, x), case)
                 continue
             ctx.evaluations += 1
             lines.append(c08.hist_line(nconn, evs))
@@ -374,7 +382,14 @@ def replay(ctx, case):
         print(json.dumps(case.get("no_longer_checks")))
         return 1
     evs = [(e[0], c08._untuple(e[1])) for e in c["evs"]]
-    obs, res, pool = c08.run_real(c["servertype"], c["nconn"], evs, c.get("hook_raises", ()), linger=c.get("linger"), collect=True)
+    try:
+        obs, res, pool = c08.run_real(c["servertype"], c["nconn"], evs, c.get("hook_raises", ()), linger=c.get("linger"), collect=True,
+                                      commtimeout=c.get("commtimeout", 0.0))
+    except srvkit.Blocked as x:
+        print("history:", c08.hist_line(c["nconn"], evs))
+        print("   a silent peer is never timed out:", x)
+        print("VIOLATION reproduced")
+        return 1
     print("history:", c08.hist_line(c["nconn"], evs))
     print("observed:", real_line(obs, res, c["servertype"]))
     before = len(ctx.failures)
